@@ -3,5 +3,5 @@ CONSTANTS
   Defects = {"VhostBeforeRoute"}
   Big = FALSE
 SPECIFICATION Spec
-INVARIANTS HdrImplIsSem HdrLevelOrder PathImplIsSem PrefixWins PathRuleSwapsWholePath HostImplIsSem RedirImplIsSem TmoImplIsSem TryBelowGlobal
+INVARIANTS HdrImplIsSem HdrLevelOrder HdrVarResolved PathImplIsSem PrefixWins PathRuleSwapsWholePath HostImplIsSem RedirImplIsSem PfcImplIsSem TmoImplIsSem TryBelowGlobal
 CHECK_DEADLOCK FALSE
